@@ -595,6 +595,11 @@ func (w *world) forge(b *base, variant string) ([]forged, error) {
 		return injected("x5c", func(h map[string]any) { h["x5c"] = []string{w.selfSigned(b.attacker)} })
 	case "embedded-private-key":
 		return injected("private-jwk-of-attacker", func(h map[string]any) { h["jwk"] = b.attacker.PrivateJWK() })
+	case "own-private-key-embedded":
+		if !b.hasJWK {
+			return nil, errNA
+		}
+		return []forged{{name: "private-jwk-of-signer", jws: b.signed(withHdr(func(h map[string]any) { h["jwk"] = b.legit.PrivateJWK() }), b.payload, b.legit, b.alg)}}, nil
 	case "kid-other-party":
 		if b.consumer == "ldproof" {
 			return []forged{{name: "verificationMethod-of-other-party", jws: valid, vm: kidOf(otherDID, b.fam)}}, nil
